@@ -92,3 +92,104 @@ fn retention_enum() {
 	);
 	assert!(failures.is_empty(), "real process_accumulated_versions disagrees with keep_rule");
 }
+
+// Bounded check of the WHOLE version filter (accumulation loop + per-key decision): the real CompactionIterator::advance
+// over a real memtable cursor holding key "a" (one version), key "k" (the enumerated versions) and key "z" (one version);
+// the entries it emits must be exactly: a's version, the versions of k the keep_rule keeps (in order), z's version.
+// Bound (stated): <= 3 versions of k, kinds {Set, Delete, SoftDelete, Replace}, sequence numbers from {20,30,40},
+// timestamps {fresh, expired}, snapshot lists = all subsets of {5,15,25,35,45}, bottom/non-bottom, versioning on/off,
+// retention {0, 100}.
+#[test]
+fn advance_enum() {
+	use crate::batch::Batch;
+	use crate::memtable::MemTable;
+	let kinds = [InternalKeyKind::Set, InternalKeyKind::Delete, InternalKeyKind::SoftDelete, InternalKeyKind::Replace];
+	let seqs = [40u64, 30, 20];
+	let snaps_all = [5u64, 15, 25, 35, 45];
+	let now = 1000u64;
+	let mut cases = 0u64;
+	let mut nontrivial = 0u64;
+	let mut failures: Vec<String> = Vec::new();
+	for n in 1..=3usize {
+		let combos = 8usize.pow(n as u32);
+		for c in 0..combos {
+			let mut v = Vec::new();
+			let mut x = c;
+			for i in 0..n {
+				let kind = kinds[x % 4];
+				x /= 4;
+				let ts = if x % 2 == 0 { now - 10 } else { now - 500 };
+				x /= 2;
+				v.push((seqs[3 - n + i], kind, ts));
+			}
+			// one memtable per version list (shared by all filter settings)
+			let mt = MemTable::new(1 << 16);
+			let put = |key: &[u8], seq: u64, kind: InternalKeyKind, ts: u64| {
+				let mut b = Batch::new(seq);
+				let val = if matches!(kind, InternalKeyKind::Set | InternalKeyKind::Replace) { Some(vec![seq as u8]) } else { None };
+				b.add_record(kind, key.to_vec(), val, ts).unwrap();
+				mt.add(&b).unwrap();
+			};
+			put(b"a", 1, InternalKeyKind::Set, now - 10);
+			put(b"z", 2, InternalKeyKind::Set, now - 10);
+			for &(seq, kind, ts) in v.iter().rev() {
+				put(b"k", seq, kind, ts);
+			}
+			for mask in 0..32u32 {
+				let s: Vec<u64> = snaps_all.iter().enumerate().filter(|(i, _)| mask & (1 << i) != 0).map(|(_, &x)| x).collect();
+				for &bottom in &[false, true] {
+					for &versioning in &[false, true] {
+						for &retention in &[0u64, 100] {
+							if !versioning && retention != 0 {
+								continue;
+							}
+							cases += 1;
+							let mut want: Vec<(Vec<u8>, u64)> = vec![(b"a".to_vec(), 1)];
+							let kept: Vec<u64> = (0..n).filter(|&j| keep_rule(&v, &s, bottom, versioning, retention, now, j)).map(|j| v[j].0).collect();
+							if kept.len() != n && !kept.is_empty() {
+								nontrivial += 1;
+							}
+							want.extend(kept.iter().map(|&q| (b"k".to_vec(), q)));
+							want.push((b"z".to_vec(), 2));
+							let cmp = Arc::new(InternalKeyComparator::new(Arc::new(BytewiseComparator::default())));
+							let clock = Arc::new(MockLogicalClock::with_timestamp(now));
+							let mut it = CompactionIterator::new(vec![Box::new(mt.iter()) as BoxedLSMIterator<'_>], cmp, bottom, versioning, retention, clock, s.clone());
+							let mut got: Vec<(Vec<u8>, u64)> = Vec::new();
+							let mut err: Option<String> = None;
+							loop {
+								match it.advance() {
+									Ok(Some((k, _))) => {
+										got.push((k.user_key.to_vec(), k.seq_num()));
+										if got.len() > 16 {
+											err = Some("more than 16 entries".to_string());
+											break;
+										}
+									}
+									Ok(None) => break,
+									Err(e) => {
+										err = Some(e.to_string());
+										break;
+									}
+								}
+							}
+							if (err.is_some() || got != want) && failures.len() < 5 {
+								let show = |l: &Vec<(Vec<u8>, u64)>| l.iter().map(|e| format!("{}@{}", String::from_utf8_lossy(&e.0), e.1)).collect::<Vec<_>>().join(" ");
+								failures.push(format!(
+									"{{\"versions_of_k(seq,kind,ts)\":\"{:?}\",\"snapshots\":{:?},\"bottom\":{},\"versioning\":{},\"retention\":{},\"expected(key@seq)\":\"{}\",\"real_output\":\"{}\",\"error\":\"{}\"}}",
+									v, s, bottom, versioning, retention, show(&want), show(&got), err.clone().unwrap_or_else(|| "none".to_string()).replace('"', "'")
+								));
+							}
+						}
+					}
+				}
+			}
+		}
+	}
+	println!(
+		"REPLAY-RESULT {{\"driver\":\"iter::advance_enum\",\"cases\":{},\"distinct_nontrivial\":{},\"failures\":[{}]}}",
+		cases,
+		nontrivial,
+		failures.join(",")
+	);
+	assert!(failures.is_empty(), "real CompactionIterator::advance disagrees with keep_rule");
+}
